@@ -59,6 +59,17 @@ CLAIMS = {
         "DataModel::update on generated model text (60 fresh instances, since the real hash order is random).",
    note="Outside the claim: the pest parser, persistence and index maintenance (SQL). Edits are the listed family on models of <= 2 namespaces x 2 entities x 3 fields.",
    design='DESIGN.md §3 C15'),
+ 'C14': dict(
+   level='model_checking',
+   text="Panic-freedom of the pure decoders and validators. Kani (CBMC, bit-precise, unwinding assertions on) proves import_verifying_key panic-free on every byte "
+        "string of length 0..40, Ed2519VerifyingKey::verify on every signature length 0..70, uid_from on every vector of length 0..40, with reachability covers; "
+        "mirsym executes the daily-log marking of synchronised rows / tombstones with unconstrained 64-bit peer dates (chrono modelled on its measured range, panic "
+        "outside), Variables::validate_params for every VariableType x ParamValue x nullable, and verify() of every signed kind; a failing MIR assert, unwrap on None/Err, "
+        "unreachable or panic! is an explicit event and any feasible one is a violation, replayed natively (Kani values through concrete playback).",
+   note="Kernel only (level_note): the pest parsers and the unwraps behind them, SQL validity of generated statements, wire framing in endpoint.rs, thread liveness and the "
+        "JSON-null unwrap in get_mutate_query (needs a rusqlite::Connection) are outside. Kani stubs: dalek from_bytes/verify arbitrary Ok/Err, alloc::fmt::format empty.",
+   technique="Kani/CBMC bounded model checking of the compiled code (byte decoders) + bounded symbolic execution of MIR with z3 (structural code); counterexamples replayed natively",
+   design='DESIGN.md §3 C14'),
 }
 
 NA = {
